@@ -5,7 +5,7 @@ import rules_ext as E
 
 EXPLANATION = (
     "Decides on the extractor's and classifier's MIR: (H) the hash gate (as C01-G); (S) TrampolineInfo is constructed only behind "
-    "check_signature()==Ok on the stored invoice, the payee is get/recover_payee_pub_key of that invoice, bolt11 is the parsed string and comes "
+    "check_signature()==Ok on the stored invoice, the payee is get_payee_pub_key of that invoice (the explicit `n` field when present - the key check_signature verifies against - else the recovered key), bolt11 is the parsed string and comes "
     "from record 33001 inside record 16; (A) per reaching definition of the amount: the invoice amount only on arms (invoice Some, tlv None) or "
     "(Some, Some, equal), the declared amount only on (None, Some); an over-long amount field is treated as absent; (R) the route-hint gate "
     "compares the LAST hop of ANY hint with the local key and Trampoline classification is reachable only via `no such hint` or `allowed`; the "
@@ -26,6 +26,9 @@ def run(F, X, rep):
     # field is the canonical zero)
     import p_c18
     p_c18.c18_u(F, X, rep, p_c18.tlv_bodies(F))
+    # observed at "the pay RPC's bolt11+amount": the provider hands the node exactly the bolt11 and the amount the lifecycle computed (C03-R6, cited)
+    import rules_provider as P
+    P.r6_verbatim(C, rep, "C10-P")
     if H.need_hh(C, rep, "C10-R"):
         E.r_self_route_hint(C, rep, "C10-R")
         H.n2_forward_classification(C, rep, "C10-C")
